@@ -18,6 +18,7 @@ Static clauses:
            wraps a list with a dominating ledger-order sort and the field is never mutably borrowed / assigned elsewhere
   (sorts)  explicit comparators are read (`a.f.cmp(&b.f).then_with(|| a.g.cmp(&b.g))`: same field, first parameter first,
            ledger-ordered types); a list captured by a closure is judged where the closure is created
+  S-ALL (2) the items redeemers are built for are not collapsed by a key (a map by policy) before their redeemers are looked at
 Not decided: equality of redeemer data with the template expression (C09/C01); that the ledger's canonical order is
 (txid, index) / bytewise policy / reward-account order (domain fact, trusted).
 """
